@@ -40,11 +40,11 @@ RuleLink(targets, tfs, op, mm, acts) ==
 ActLink(acts) ==
   [targets |-> << >>, tfs |-> << >>, op |-> NoOp, mm |-> FALSE, acts |-> acts, hasOp |-> FALSE]
 MkRule(id, phase, links) ==
-  [id |-> id, phase |-> phase, marker |-> "", links |-> links, status |-> 0, sev |-> 0 - 1]
+  [id |-> id, phase |-> phase, marker |-> "", links |-> links, status |-> 0, sev |-> 0 - 1, tags |-> << >>, msg |-> ""]
 MkMarker(name) ==
-  [id |-> 0, phase |-> 0, marker |-> name, links |-> <<ActLink(<< >>)>>, status |-> 0, sev |-> 0 - 1]
+  [id |-> 0, phase |-> 0, marker |-> name, links |-> <<ActLink(<< >>)>>, status |-> 0, sev |-> 0 - 1, tags |-> << >>, msg |-> ""]
 E(c, k, v) == [c |-> c, k |-> k, v |-> v]
-NoDir == [d |-> "", ids |-> << >>, s |-> "", tgts |-> << >>, acts |-> << >>]
+Dir(d) == [d |-> d, ids |-> << >>, lo |-> 0, hi |-> 0, s |-> "", tgts |-> << >>, acts |-> << >>]
 MkScen(rules, req, engine) == [rules |-> rules, req |-> req, engine |-> engine, dirs |-> << >>]
 
 \* all sequences over S of length 0..n
@@ -52,6 +52,10 @@ RECURSIVE SeqsUpTo(_, _)
 SeqsUpTo(S, n) == IF n = 0 THEN {<< >>}
                   ELSE SeqsUpTo(S, n - 1) \cup {Append(q, e) : q \in {q2 \in SeqsUpTo(S, n - 1) : Len(q2) = n - 1}, e \in S}
 SeqsOfLen(S, n) == {q \in SeqsUpTo(S, n) : Len(q) = n}
+
+\* a request holding exactly the entries of the set S (in TLC's deterministic order)
+RECURSIVE ReqOfEntries(_)
+ReqOfEntries(S) == IF S = {} THEN << >> ELSE LET e == CHOOSE e \in S : TRUE IN <<e>> \o ReqOfEntries(S \ {e})
 
 \* request in which exactly the keys of M (a set of byte strings) are present as ARGS_GET k=1
 RECURSIVE ReqOf(_)
@@ -220,5 +224,46 @@ CacheScen(pk) ==
              ELSE IF pk.third = "chainA" THEN <<CacheChain(30, pk.t1)>>
              ELSE <<CacheChain(30, pk.t1), CacheChain(40, pk.t1)>>),
          pk.rq, "On")
+
+(***************************************************************************)
+(* Family "dirs" (C17): a base rule set, then configuration-time           *)
+(* exclusion / update directives, or run-time ctl counterparts placed in   *)
+(* an extra rule; the meaning must be that of the rewritten rule set.      *)
+(***************************************************************************)
+s_cc == <<99>>          \* "c"
+M(c, k) == RuleLink(<<TK(c, k)>>, << >>, OpLit("streq", s_x), FALSE, << >>)
+DirBase ==
+  << [MkRule(10, 1, <<M("ARGS_GET", s_a)>>) EXCEPT !.tags = <<"t1">>, !.msg = "m1"],
+     [MkRule(20, 2, <<RuleLink(<<T("ARGS_GET")>>, << >>, OpLit("streq", s_x), FALSE, << >>)>>) EXCEPT !.tags = <<"t1", "t2">>],
+     [MkRule(30, 2, <<RuleLink(<<TK("ARGS_GET", s_a)>>, << >>, OpLit("streq", s_x), FALSE, <<A("deny")>>),
+                     RuleLink(<<T("ARGS_POST")>>, << >>, OpLit("streq", s_x), FALSE, << >>)>>) EXCEPT !.tags = <<"t2">>, !.msg = "m3"],
+     MkRule(40, 2, <<ActLink(<<ASetvar(<<Lit(s_n)>>, "add", <<Lit(s_1)>>)>>)>>) >>
+OnlyExcl(col, sel) == Tgt(col, [t |-> "none", k |-> << >>, pat |-> [m |-> "", lit |-> << >>]], FALSE, <<sel>>)
+DirIdSets == { [ids |-> <<10>>, lo |-> 0, hi |-> 0], [ids |-> <<10, 30>>, lo |-> 0, hi |-> 0], [ids |-> <<20, 40>>, lo |-> 0, hi |-> 0],
+               [ids |-> << >>, lo |-> 10, hi |-> 20], [ids |-> << >>, lo |-> 15, hi |-> 35], [ids |-> <<40>>, lo |-> 10, hi |-> 10] }
+DirTargetSets == { <<T("ARGS_POST")>>, <<TK("ARGS_GET", s_b)>>, <<OnlyExcl("ARGS_GET", SelKey(s_a))>>, <<OnlyExcl("ARGS_GET", SelKey(s_A))>> }
+DirActionSets == { <<A("deny")>>, <<A("pass")>>, <<ASetvar(<<Lit(s_n)>>, "add", <<Lit(s_2)>>)>> }
+WithIds(d, z) == [d EXCEPT !.ids = z.ids, !.lo = z.lo, !.hi = z.hi]
+Directives ==
+  {WithIds(Dir("SecRuleRemoveById"), z) : z \in DirIdSets}
+  \cup {[Dir("SecRuleRemoveByTag") EXCEPT !.s = t] : t \in {"t1", "t2", "tX"}}
+  \cup {[Dir("SecRuleRemoveByMsg") EXCEPT !.s = m] : m \in {"m1", "m3", "mX"}}
+  \cup {[WithIds(Dir("SecRuleUpdateTargetById"), z) EXCEPT !.tgts = tg] : z \in DirIdSets, tg \in DirTargetSets}
+  \cup {[Dir("SecRuleUpdateTargetByTag") EXCEPT !.s = t, !.tgts = tg] : t \in {"t1", "t2"}, tg \in DirTargetSets}
+  \cup {[WithIds(Dir("SecRuleUpdateActionById"), z) EXCEPT !.acts = ac] : z \in DirIdSets, ac \in DirActionSets}
+CtlActs ==
+  { ACtlRmId(20), ACtlRmId(30), ACtlRmRange(15, 35), ACtlRmRange(10, 10), ACtlRmTag("t1"), ACtlRmTag("t2"), ACtlRmMsg("m3"), ACtlRmMsg("mX"),
+    ACtlRmTgt(20, "ARGS_GET", SelKey(s_a)), ACtlRmTgt(30, "ARGS_POST", SelAll), ACtlRmTgt(30, "ARGS_GET", SelKey(s_A)),
+    ACtlRmTgtTag("t2", "ARGS_GET", SelKey(s_a)), ACtlRmTgtMsg("m1", "ARGS_GET", SelKey(s_a)) }
+DirReqs == {ReqOfEntries(S) : S \in SUBSET {E("ARGS_GET", s_a, s_x), E("ARGS_GET", s_b, s_x), E("ARGS_POST", s_a, s_x), E("ARGS_GET", s_cc, s_1)}}
+DirPicks(two, slice, slices) ==
+  [kind : {"dir"}, d1 : SliceOf(Directives, slice, slices), d2 : IF two THEN Directives \cup {Dir("")} ELSE {Dir("")}, ctl : {A("pass")}, pos : {0}, rq : DirReqs]
+  \cup [kind : {"ctl"}, d1 : {Dir("")}, d2 : {Dir("")}, ctl : SliceOf(CtlActs, slice, slices), pos : {0, 2}, rq : DirReqs]
+\* the ctl rule fires iff the request carries ARGS_GET c
+CtlRule(act) == MkRule(5, 1, <<RuleLink(<<TK("ARGS_GET", s_cc)>>, << >>, Op("unconditionalMatch", << >>, FALSE), FALSE, <<act>>)>>)
+DirScen(pk) ==
+  IF pk.kind = "dir"
+    THEN [MkScen(DirBase, pk.rq, "On") EXCEPT !.dirs = SelectSeq(<<pk.d1, pk.d2>>, LAMBDA d : d.d # "")]
+    ELSE MkScen(SubSeq(DirBase, 1, pk.pos) \o <<[CtlRule(pk.ctl) EXCEPT !.phase = IF pk.pos = 0 THEN 1 ELSE 2]>> \o SubSeq(DirBase, pk.pos + 1, Len(DirBase)), pk.rq, "On")
 
 =============================================================================
